@@ -304,6 +304,22 @@ def removal(rep, cmod):
         rep.ob('C09.remove', 'slots cleared before own fields; squeeze before renumbering', ok2)
         if not ok2:
             rep.violate('C09.remove', cmod, f, 'ordering in Line.remove', 'Line.remove: slots must be cleared while driver/reader/pins are still recorded; squeeze before renumbering', node=f)
+    # each clearing step runs exactly when the object it goes through is present (and only then)
+    from kvstatic.paths import guard_texts
+    want_guard = {'self.driver.outs[self.driver_pin]=None': 'self.driverisnotNone', 'self.reader.ins[self.reader_pin]=None': 'self.readerisnotNone',
+                  'delself.circuit.lines[self.index]': 'self.circuitisnotNone', 'delself.driver.outs[self.driver_pin]': 'self.driverisnotNone'}
+    for st in [s for s in ast.walk(f) if isinstance(s, (ast.Assign, ast.Delete))]:
+        w = want_guard.get(cz(st))
+        if w is None:
+            continue
+        g = guard_texts(st, body_no_doc(f))
+        pos = [t for t, pol in g if pol is True]
+        neg = [t for t, pol in g if pol is False]
+        okg = w in pos and not any(t == w for t in neg) and not any(t.startswith('not') and w in t for t in pos)
+        rep.ob('C09.remove', f'{cz(st)} guarded by {w}', okg)
+        if not okg:
+            rep.violate('C09.remove', cmod, f, st, f'Line.remove: `{norm(st)}` must run exactly when `{w.replace("isnotNone", " is not None")}` holds (guards found: {g}): otherwise the slot of a '
+                        f'connected line is never cleared, or None is dereferenced', node=st)
     # squeeze only for forks
     iffs = [i for i in find_all(f, ast.If) if '__fork__' in norm(i.test)]
     ok = len(iffs) == 1 and norm(iffs[0].test).replace(' ', '') == "self.driver.kind=='__fork__'" and \
